@@ -224,7 +224,7 @@ pub fn c15(cx: &Ctx) -> Vec<Finding> {
             continue;
         }
         let idle = cx.ix.enclosing(xi, |s| matches!(s.site, Site::SinkRecv { msg: M::Data(_), .. })).is_none();
-        let over_before = completed_at.map_or(false, |c| c < x.start);
+        let over_before = completed_at.map_or(false, |c| c < x.start) || disposed_at.map_or(false, |d| d < x.start);
         if idle && !over_before {
             let answered = cx.ix.spans.iter().any(|s| {
                 matches!(s.site, Site::SinkRecv { msg: M::Data(_) | M::Terminate, .. }) && s.start > x.start && s.start < x.end
